@@ -34,6 +34,9 @@ func envOr(k, d string) string {
 	return d
 }
 
+// packages always loaded from source (pure Go, interpreted)
+var defaultRoots = []string{"errors", "bytes", "strings", "sort", "strconv", "unicode/utf8", "unicode", "math/bits", "encoding/binary", "encoding/hex", "container/list"}
+
 type TierCfg struct {
 	Params   map[string]int `json:"params"`
 	MaxPaths int            `json:"max_paths"`
@@ -191,6 +194,17 @@ func cmdRun(id string, args []string) int {
 		return inconclusive(id, *tier, seed, t0, "overlay: "+err.Error(), c, nil)
 	}
 	roots := append([]string{c.Package}, c.Roots...)
+	for _, d := range defaultRoots {
+		dup := false
+		for _, r := range roots {
+			if r == d {
+				dup = true
+			}
+		}
+		if !dup {
+			roots = append(roots, d)
+		}
+	}
 	tl := time.Now()
 	ld, err := sym.Load(repoDir, roots, ov, "")
 	if err != nil {
